@@ -9,7 +9,8 @@
      1, 2, 3  tracked, option k taken by type k (and option 3 inherited by type 4, see below);
      4        untracked, taken by type 2;
      5        tracked, *shared*: taken by types 1, 3 and 4;
-     6        tracked *child option* of type 4 with parent option 3.
+     6        tracked *child option* of type 4 with parent option 3;
+     7        *mixed*: taken by type 2 as a tracked option and by type 3 (and its child, type 4) as an untracked one.
    Type 4 is provided by a child plugin: a subclass of a type-3 class (its parent, fixed per class: pname / pver).
    It computes with the parent's code, in which the parent's option 3 is replaced by the value of option 6; its
    lineage entry holds its own name and version, its tracked options without the overridden parent option, and
@@ -42,7 +43,7 @@ CONSTANTS Classes,    \* set of [t, name, ver, def, uid, nv, pname, pver]: class
 T == 1..4
 Dep(i) == CASE i = 1 -> 0 [] i = 2 -> 1 [] i = 3 -> 2 [] i = 4 -> 2
 Anc(i) == CASE i = 1 -> {1} [] i = 2 -> {1, 2} [] i = 3 -> {1, 2, 3} [] i = 4 -> {1, 2, 4}
-Opts == 1..6
+Opts == 1..7
 Vals == 0..2                  \* 0 = not set in the context config
 SharedDefault == 1            \* every class declares the shared option with this default
 OwnOpt(t) == IF t = 4 THEN 6 ELSE t
@@ -59,18 +60,20 @@ FuzzyOn == fz # {} \/ fzo # {}
 \* effective value of the class's own option (for a child plugin: of its child option, which replaces the parent's option 3)
 Eff(cls, cfg) == IF cfg[OwnOpt(cls.t)] # 0 THEN cfg[OwnOpt(cls.t)] ELSE cls.def
 EffShared(cls, cfg) == IF TakesShared(cls.t) THEN (IF cfg[5] # 0 THEN cfg[5] ELSE SharedDefault) ELSE 0
+\* the mixed option counts (lineage and output) only where it is tracked: type 2
+EffMixed(cls, cfg) == IF cls.t = 2 THEN (IF cfg[7] # 0 THEN cfg[7] ELSE SharedDefault) ELSE 0
 \* lineage entry of one plugin: name, version, tracked options (option number -> value), parent name -> version for a child plugin
 Lin1(cls, cfg) == [name |-> cls.name, ver |-> cls.ver,
-                   opts |-> [o \in {OwnOpt(cls.t)} \cup (IF TakesShared(cls.t) THEN {5} ELSE {}) |->
-                               IF o = 5 THEN EffShared(cls, cfg) ELSE Eff(cls, cfg)],
+                   opts |-> [o \in {OwnOpt(cls.t)} \cup (IF TakesShared(cls.t) THEN {5} ELSE {}) \cup (IF cls.t = 2 THEN {7} ELSE {}) |->
+                               IF o = 5 THEN EffShared(cls, cfg) ELSE IF o = 7 THEN EffMixed(cls, cfg) ELSE Eff(cls, cfg)],
                    par |-> IF cls.t = 4 THEN <<cls.pname, cls.pver>> ELSE <<>>]
 TrueLineage(i) == [k \in Anc(i) |-> Lin1(registry[k], config)]
 \* _filter_lineage: entries of fuzzy types dropped, fuzzy options dropped from every entry
 Filter(lin) == [k \in (DOMAIN lin) \ fz |-> [lin[k] EXCEPT !.opts = [o \in (DOMAIN lin[k].opts) \ fzo |-> lin[k].opts[o]]]]
-\* what one plugin adds to the provenance of its output
-Digits(cls, cfg) == cls.nv * 100 + Eff(cls, cfg) * 10 + EffShared(cls, cfg)
+\* what one plugin adds to the provenance of its output; a provenance is the sequence of these along the dependency chain
+Digits(cls, cfg) == <<cls.nv, Eff(cls, cfg), EffShared(cls, cfg), EffMixed(cls, cfg)>>
 RECURSIVE Expected(_)
-Expected(i) == IF i = 0 THEN 0 ELSE Expected(Dep(i)) * 1000 + Digits(registry[i], config)
+Expected(i) == IF i = 0 THEN <<>> ELSE Append(Expected(Dep(i)), Digits(registry[i], config))
 
 \* _context_hash: the config and (version, ...) of every registered type - not the class, not the defaults
 CtxHash == <<config, [k \in T |-> registry[k].ver]>>
@@ -98,12 +101,12 @@ DataOf(i, ch, st) ==
       fhit == IF FuzzyOn THEN {s \in st : s.t = i /\ Filter(s.key) = Filter(rec.lin)} ELSE {}
   IN IF hit # {} THEN {<<s.code, st>> : s \in hit}
      ELSE IF fhit # {} THEN {<<s.code, st>> : s \in fhit}
-     ELSE LET D == IF Dep(i) = 0 THEN {<<0, st>>} ELSE DataOf(Dep(i), ch, st)
-          IN {LET code == d[1] * 1000 + rec.dig
+     ELSE LET D == IF Dep(i) = 0 THEN {<< <<>>, st>>} ELSE DataOf(Dep(i), ch, st)
+          IN {LET code == Append(d[1], rec.dig)
               IN <<code, IF FuzzyOn THEN d[2] ELSE d[2] \cup {[t |-> i, key |-> rec.lin, code |-> code]}>> : d \in D}
 
 Init == /\ registry \in [T -> Classes] /\ \A k \in T : registry[k].t = k /\ registry[k] = CHOOSE c \in ClassesOf(k) : \A d \in ClassesOf(k) : c.uid <= d.uid
-        /\ config = [o \in Opts |-> 0] /\ cache = NoCache /\ store = {} /\ fz = {} /\ fzo = {} /\ last = [a |-> "none", t |-> 0, code |-> 0, key |-> <<>>]
+        /\ config = [o \in Opts |-> 0] /\ cache = NoCache /\ store = {} /\ fz = {} /\ fzo = {} /\ last = [a |-> "none", t |-> 0, code |-> <<>>, key |-> <<>>]
         /\ len = 0
 
 SetConfig(o, v) == /\ config[o] # v /\ config' = [config EXCEPT ![o] = v]
@@ -112,18 +115,18 @@ Register(c) == /\ registry[c.t] # c /\ registry' = [registry EXCEPT ![c.t] = c]
                /\ cache' = IF Repaired THEN NoCache ELSE cache
                /\ UNCHANGED <<config, store, fz, fzo>> /\ last' = [a |-> "reg", t |-> c.t, code |-> c.uid, key |-> <<>>]
 NewContext == /\ cache # NoCache /\ cache' = NoCache /\ UNCHANGED <<registry, config, store, fz, fzo>>
-              /\ last' = [a |-> "new", t |-> 0, code |-> 0, key |-> <<>>]
+              /\ last' = [a |-> "new", t |-> 0, code |-> <<>>, key |-> <<>>]
 Get(i) == LET r == Resolve(i, cache) IN
           \E d \in DataOf(i, r[2], store) :
             /\ cache' = r[2] /\ store' = d[2] /\ UNCHANGED <<registry, config, fz, fzo>>
             /\ last' = [a |-> "get", t |-> i, code |-> d[1], key |-> r[1].lin]
 KeyFor(i) == LET r == Resolve(i, cache) IN
              /\ cache' = r[2] /\ UNCHANGED <<registry, config, store, fz, fzo>>
-             /\ last' = [a |-> "key", t |-> i, code |-> 0, key |-> r[1].lin]
+             /\ last' = [a |-> "key", t |-> i, code |-> <<>>, key |-> r[1].lin]
 
 \* set_context_config(fuzzy_for = S) / (fuzzy_for_options = S)
-SetFuzzy(S) == /\ fz' = S /\ UNCHANGED <<registry, config, cache, store, fzo>> /\ last' = [a |-> "fz", t |-> 0, code |-> 0, key |-> <<>>]
-SetFuzzyOpts(S) == /\ fzo' = S /\ UNCHANGED <<registry, config, cache, store, fz>> /\ last' = [a |-> "fzo", t |-> 0, code |-> 0, key |-> <<>>]
+SetFuzzy(S) == /\ fz' = S /\ UNCHANGED <<registry, config, cache, store, fzo>> /\ last' = [a |-> "fz", t |-> 0, code |-> <<>>, key |-> <<>>]
+SetFuzzyOpts(S) == /\ fzo' = S /\ UNCHANGED <<registry, config, cache, store, fz>> /\ last' = [a |-> "fzo", t |-> 0, code |-> <<>>, key |-> <<>>]
 
 \* the same steps without the "something changes" guards (used by the trace specification: a driver may set an
 \* option to the value it already has, or register the class that is already registered)
@@ -132,7 +135,7 @@ SetConfigOrSame(o, v) == IF config[o] # v THEN SetConfig(o, v)
 RegisterOrSame(c) == IF registry[c.t] # c THEN Register(c)
                      ELSE /\ cache' = IF Repaired THEN NoCache ELSE cache
                           /\ UNCHANGED <<registry, config, store, fz, fzo>> /\ last' = [a |-> "reg", t |-> c.t, code |-> c.uid, key |-> <<>>]
-NewOrSame == /\ cache' = NoCache /\ UNCHANGED <<registry, config, store, fz, fzo>> /\ last' = [a |-> "new", t |-> 0, code |-> 0, key |-> <<>>]
+NewOrSame == /\ cache' = NoCache /\ UNCHANGED <<registry, config, store, fz, fzo>> /\ last' = [a |-> "new", t |-> 0, code |-> <<>>, key |-> <<>>]
 
 Step == \/ \E o \in Opts, v \in Vals : SetConfig(o, v)
         \/ \E c \in Classes : Register(c)
@@ -150,13 +153,13 @@ NoStaleRead == (last.a = "get" /\ ~FuzzyOn) => last.code = Expected(last.t)
 \* the exact entry if there is one, else any entry matching after filtering, else computed from what the input may be
 RECURSIVE FuzzyExpected(_)
 FuzzyExpected(i) ==
-  IF i = 0 THEN {0}
+  IF i = 0 THEN {<<>>}
   ELSE LET want == TrueLineage(i)
            ex == {s \in store : s.t = i /\ s.key = want}
            M == {s \in store : s.t = i /\ Filter(s.key) = Filter(want)}
        IN IF ex # {} THEN {s.code : s \in ex}
           ELSE IF M # {} THEN {s.code : s \in M}
-          ELSE {c * 1000 + Digits(registry[i], config) : c \in FuzzyExpected(Dep(i))}
+          ELSE {Append(c, Digits(registry[i], config)) : c \in FuzzyExpected(Dep(i))}
 FuzzyAccepts == (last.a = "get" /\ FuzzyOn) => last.code \in FuzzyExpected(last.t)
 \* nothing computed under fuzzy matching is written
 NothingWrittenUnderFuzzy == [][FuzzyOn => store' = store]_vars
@@ -165,8 +168,8 @@ KeyIsLineage == last.a \in {"get", "key"} => last.key = TrueLineage(last.t)
 \* static laws of the key function.  Which types an option reaches: its takers and their descendants; the parent option 3 does not
 \* reach the child plugin (type 4), whose option 6 replaces it; the untracked option reaches nothing.
 KeyOf(reg, cfg, i) == [k \in Anc(i) |-> Lin1(reg[k], cfg)]
-Takers(o) == CASE o = 1 -> {1} [] o = 2 -> {2} [] o = 3 -> {3} [] o = 4 -> {} [] o = 5 -> {1, 3, 4} [] o = 6 -> {4}
-EffOf(cls, cfg, o) == IF o = 5 THEN EffShared(cls, cfg) ELSE Eff(cls, cfg)
+Takers(o) == CASE o = 1 -> {1} [] o = 2 -> {2} [] o = 3 -> {3} [] o = 4 -> {} [] o = 5 -> {1, 3, 4} [] o = 6 -> {4} [] o = 7 -> {2}
+EffOf(cls, cfg, o) == IF o = 5 THEN EffShared(cls, cfg) ELSE IF o = 7 THEN EffMixed(cls, cfg) ELSE Eff(cls, cfg)
 OptionMoves == \A o \in Opts : \A v \in Vals :
                   LET cfg2 == [config EXCEPT ![o] = v]
                   IN \A i \in T : (KeyOf(registry, cfg2, i) # KeyOf(registry, config, i))
